@@ -404,7 +404,7 @@ func c03Empty(t *mon.T, d c03Desc, r *gen.RandT, content gen.Content) {
 
 func genC03(g *mon.G) {
 	r := gen.Rand(g.Seed)
-	n := g.Pick(300, 4000)
+	n := g.Pick(1500, 30000)
 	conts := []string{"v1", "v1-nullpad", "v2", "v2-pad", "v2-indexless"}
 	for i := 0; i < n; i++ {
 		d := c03Desc{Seed: r.Int63(), Container: conts[i%len(conts)], StoreID: r.Intn(2) == 0}
